@@ -712,10 +712,10 @@ def run(ck):
     exe = recsolver.build(ck)
     hist = {'feature': {}, 'names': {}, 'accept': {}, 'outcome': {}, 'record': {}, 'delivered_type': {}, 'stored_type': {},
             'link_type': {}}
-    nh = stage_harness(ck, drv, 6000 if quick else 100000, 6000 if quick else 100000, hist)
+    nh = stage_harness(ck, drv, 5000 if quick else 100000, 5000 if quick else 100000, hist)
     ck.log('harness: %d op sequences; %s %s' % (nh, hist.get('harness_json'), hist.get('harness_links')))
     sample_lines = []
-    ncases, nval, nlines = stage_validation(ck, exe, drv, tab, 800 if quick else 15000, hist, sample_lines)
+    ncases, nval, nlines = stage_validation(ck, exe, drv, tab, 600 if quick else 15000, hist, sample_lines)
     npar = stage_parser(ck, drv, sample_lines[:1000 if quick else 5000], 6000 if quick else 40000, hist)
     ck.log('parser cross-check: %s' % hist['parser_crosscheck'])
     ck.log('validation: %d runs, %d converted+validated, %d export lines; outcomes %s' % (ncases, nval, nlines, hist['outcome']))
